@@ -126,7 +126,8 @@ def run(tier):
     import c06
     rt = run_tlc("EvalAbsMC", "EvalAbs_quick.cfg" if tier == "quick" else "EvalAbs_thorough.cfg", workers=8, timeout=1800, java_opts=["-Xss512m"])
     chk.add_tlc(rt)
-    fam = [progs.harness_case(c["prog"], style=i % 4, want={"doc": True})[0] for i, c in enumerate(rt.cases) if c["outcome"] == "OK"]
+    # every member, whatever the specification predicts: any document the compiler emits must be valid
+    fam = [progs.harness_case(c["prog"], style=i % 4, want={"doc": True})[0] for i, c in enumerate(rt.cases)]
     nontrivial += check_docs(chk, "position-shape-families", fam, run_oalv_parallel("compile", fam, jobs=8))
     # the families of DenMC.tla (URIs and their concatenations, transfers, ranges, schemas, recursive instantiations)
     for f in ("uris", "xfers", "ranges", "schemas", "recinst"):
